@@ -593,7 +593,7 @@ func cmdCheck(args []string) int {
 					for _, k := range known {
 						if k.kind == "finding" && k.property == prop && k.entry == es.Name && k.label == v.Label {
 							isKnown = true
-							fmt.Printf("KNOWN-FINDING: property=%s entry=%s label=%q %s\n", prop, es.Name, v.Label, k.text)
+							fmt.Printf("KNOWN-FINDING: %s\n", k.text)
 							break
 						}
 					}
